@@ -41,7 +41,7 @@ EXPLANATION = ("Exhaustive sub-space (both tiers): every labelled graph up to is
                "Everything else is seeded random / "
                "corpus sampling.  Theorems (coq/props/C11.v, all closed under the global context): C11_vocabulary, C11_aut_count, C11_aut_group, "
                "C11_vf2_contract, C11_vf2_contract_items, C11_orbits_exact, C11_orbits_partition, C11_components, C11_anchors, C11_object_state, C11_wl_never_splits, C11_wl_partition, C11_wfb_sound, "
-               "C11_dedup_sublist, C11_dedup_first_of_class, C11_dedup_idempotent, C11_partial_prune, C11_partial_prune_hosts, C11_prune_complete, C11_rep_ok, C11_prune_complete_aut, C11_prune_first_of_class, C11_prune_same_results, C11_configured_labels_only, C11_key_options, C11_rule_labels, C11_orbit_accuracy, C11_aut_observable, C11_wl_never_splits_reported, C11_orbit_accuracy_all, C11_orbit_order, C11_views, C11_dedup_singletons_sound, C11_dedup_orbit_sets_merge_unrelated, C11_orbits_no_swaps, C11_count_no_swaps, C11_repr_numeral, C11_reported_order_canonical, C11_prune_attr, C11_wl_sweeps, C11_aut_observable_attr, C11_dedup_subset_safe, C11_est_index_state, C11_three_views.")
+               "C11_dedup_sublist, C11_dedup_first_of_class, C11_dedup_idempotent, C11_partial_prune, C11_partial_prune_hosts, C11_prune_complete, C11_rep_ok, C11_prune_complete_aut, C11_prune_first_of_class, C11_prune_same_results, C11_configured_labels_only, C11_key_options, C11_rule_labels, C11_orbit_accuracy, C11_aut_observable, C11_wl_never_splits_reported, C11_orbit_accuracy_all, C11_orbit_order, C11_views, C11_dedup_singletons_sound, C11_dedup_orbit_sets_merge_unrelated, C11_orbits_no_swaps, C11_count_no_swaps, C11_repr_numeral, C11_reported_order_canonical, C11_prune_attr, C11_wl_sweeps, C11_aut_observable_attr, C11_dedup_subset_safe, C11_est_index_state, C11_three_views, C11_prune_same_images.")
 TRUSTED_BASE = [
     "Coq 8.16.1 kernel + vm_compute (no native_compute)",
     "hand-written model coq/model/C11_Model.v tied to synkit/Graph/Matcher/{automorphism,auto_est,dedup_matches}.py and the pruning call of "
@@ -54,9 +54,9 @@ TRUSTED_BASE = [
     "defaults and label building happen in the model for every case; dict order shipped as list order); the theorems' "
     "premise wf (distinct node ids, edges between distinct listed nodes, one entry per unordered pair) is computed by the model function wfb "
     "on every encoded graph and compared with True",
-    "C11_prune_same_results is stated for any result function that depends only on the item set of a match and is invariant under rule "
-    "automorphisms; that gluing is such a function is a named premise (gluing equivariance, property C05) - exercised end-to-end by the oracle "
-    "on every prune case",
+    "C11_prune_same_images / C11_prune_same_results are stated for any result function of the labelled image of the rule centre under a "
+    "match (which host atom receives which labelled rule atom, which pair which labelled rule bond) / any function invariant under rule "
+    "automorphisms; that gluing is such a function is the named premise (property C05) - exercised end-to-end by the oracle on every prune case",
 ]
 ASSUMPTIONS = ["node ids are non-negative integers", "an absent attribute is its default label (charge 0, other node attributes '*', bond order 1.0)",
                "graphs are simple and undirected",
@@ -619,11 +619,26 @@ def _flat(g):
     return h
 
 
+def _images_ok(r):
+    """C11_Image.images_ok on the implementation's lists: every raw match puts the rule's labelled atoms and bonds (all
+    attributes but atom_map; all edge attributes) on the same host atoms / atom pairs as some kept match"""
+    rc = r["rc"]
+    lab = {n: _lab_f(a) for n, a in rc["nodes"]}
+    adj = _adj(rc, _lab_e)
+
+    def image(m):
+        return (frozenset((h, lab.get(p)) for p, h in m),
+                frozenset((h1, h2, adj.get(p, {}).get(q)) for p, h1 in m for q, h2 in m if adj.get(p, {}).get(q) is not None))
+    raw = [[tuple(ph) for ph in m] for m in r["raw"]]
+    kept = {image(raw[i]) for i in r["kept"] if 0 <= i < len(raw)}
+    return all(image(m) in kept for m in raw)
+
+
 def _impl_prune(case, rule=None):
     r = _reactor(case, "front", rule=rule)
     auts = r.get("auts", [])
     sym = S([S([[u, v] for u, v in a.items()]) for a in auts]) if len(auts) <= 60 else S([])     # the symmetries themselves
-    return [[r["raw"], r["kept"], r["n_aut"]], True, True, (not _prune_representatives(r)) and r["reread"], sym]
+    return [[r["raw"], r["kept"], r["n_aut"]], True, True, (not _prune_representatives(r)) and r["reread"], sym, _images_ok(r)]
 
 
 # ------------------------------------------------------------------ history cases (one case = a script on SHARED objects)
